@@ -87,6 +87,34 @@ def c14_scenarios(scripts, seed, quick, call, scn):
                  {"do": "pause"}, {"do": "jump", "ms": 11000 + 1000 * k}, {"do": "resume"},
                  {"do": "advance", "ms": 300}]
         finish(scn("c14-slow-%d" % k, steps, seed=seed + k), push=False)
+    # an endpoint that accepts slowly, but within a deadline that is longer than the default one:
+    # nothing has failed, so the message is not POSTed again; and one whose (accepting) answer
+    # comes after the deadline: POSTed again
+    for k in range(2 if quick else 6):
+        ack = (30, 60, 20, 45, 120, 600)[k]
+        delay = (12000, 25000, 10500, 30000, 100000, 400000)[k]
+        steps = [{"do": "endpoint", "script": {"pa": [{"delay": delay, "status": (200, 204, 201)[k % 3]}], "pb": [200]}, "default": [200]},
+                 call(1, op="CreateTopic", name=T1), call(1, op="CreateSub", name=S1, topic=T1, ack=ack, push="$EP"),
+                 call(1, op="Publish", topic=T1, msgs=[{"p": "pa"}, {"p": "pb"}]),
+                 {"do": "waithttp", "n": 2, "ms": 4000}, {"do": "advance", "ms": 100}]
+        # in steps of 2 s of virtual time up to the answer and beyond the deadline
+        t = 0
+        while t < ack * 1000 + 3000:
+            step = 2000 if t < 40000 else 20000
+            steps += [{"do": "pause"}, {"do": "jump", "ms": step}, {"do": "resume"}, {"do": "advance", "ms": 60}]
+            t += step
+        steps += [{"do": "advance", "ms": 200}]
+        finish(scn("c14-slowok-%d" % k, steps, seed=seed + k))
+    for k in range(1 if quick else 3):
+        ack = (10, 12, 20)[k]
+        steps = [{"do": "endpoint", "script": {"pa": [{"delay": ack * 1000 + 4000, "status": 200}, 200], "pb": [200]}, "default": [200]},
+                 call(1, op="CreateTopic", name=T1), call(1, op="CreateSub", name=S1, topic=T1, ack=ack, push="$EP"),
+                 call(1, op="Publish", topic=T1, msgs=[{"p": "pa"}, {"p": "pb"}]),
+                 {"do": "waithttp", "n": 2, "ms": 4000}, {"do": "advance", "ms": 100}]
+        for j in range(ack // 2 + 5):
+            steps += [{"do": "pause"}, {"do": "jump", "ms": 2000}, {"do": "resume"}, {"do": "advance", "ms": 60}]
+        steps += [{"do": "advance", "ms": 200}]
+        finish(scn("c14-slowlate-%d" % k, steps, seed=seed + k), push=False)
     # an endpoint on which nothing listens, and an unsupported endpoint
     steps = [{"do": "endpoint", "script": {}, "default": [200]},
              call(1, op="CreateTopic", name=T1), call(1, op="CreateSub", name=S1, topic=T1, ack=10, push="$DEAD"),
